@@ -295,6 +295,44 @@ def kinds_at(kinds, maps, i):
     return kinds[i]
 
 
+def tailcall_program(rng, feats):
+    """a macro whose body ENDS with the bare name of another macro: that invocation takes its
+    arguments from what follows the outer invocation (pure token substitution)"""
+    n = rng.randint(1, 2)
+    depth = rng.randint(1, 3)
+    src, flat = [], []
+    pars = [f"TP{i}" for i in range(n)]
+    src += [f"@macro TINNER, {n}, " + ", ".join(pars), "@db " + ", ".join(f"( {p} ) & $ff" for p in pars), "@endmacro"]
+    prev = "TINNER"
+    ks = []
+    for j in range(depth):
+        k = rng.randint(0, 1)
+        ks.append(k)
+        name = f"TOUT{j}"
+        src.append(f"@macro {name}, {k}" + (", TQ" if k else ""))
+        src.append(f"@db ${0xc0 + j:x}" + (", ( TQ ) & $ff" if k else ""))
+        src.append(prev)
+        src.append("@endmacro")
+        prev = name
+    for _ in range(rng.randint(1, 3)):
+        qs = [rng.choice([["9"], ["4", "+", "1"]]) for _ in range(depth)]
+        ins = [rng.choice([["2"], ["1", "+", "2"], ["$30"]]) for _ in range(n)]
+        call = prev
+        # own arguments of the outermost first, then of each inner one in turn, then TINNER's
+        for j in range(depth - 1, -1, -1):
+            if ks[j]:
+                call += " " + brace(qs[j], 1 if len(qs[j]) > 1 else 0)
+        call += " " + ", ".join(brace(a, 1 if len(a) > 1 else 0) for a in ins)
+        src.append(call)
+        src.append("@db $fe")
+        for j in range(depth - 1, -1, -1):
+            flat.append(f"@db ${0xc0 + j:x}" + (", ( " + " ".join(qs[j]) + " ) & $ff" if ks[j] else ""))
+        flat.append("@db " + ", ".join("( " + " ".join(a) + " ) & $ff" for a in ins))
+        flat.append("@db $fe")
+        feats["tail_calls"] = feats.get("tail_calls", 0) + 1
+    return "\n".join(src) + "\n", "\n".join(flat) + "\n"
+
+
 def definer_program(rng, feats):
     """a macro with parameters that defines another macro: the outer parameters are substituted in
     the nested definition's name, parameter count position excluded, and body"""
@@ -310,6 +348,10 @@ def definer_program(rng, feats):
     else:
         extra = False
     src.append("@endmacro")
+    run_inside = rng.random() < 0.5
+    if run_inside:
+        src.append("NM $77")          # the macro just defined, invoked through the parameter that named it
+        feats["definer_runs_made"] = feats.get("definer_runs_made", 0) + 1
     src.append("@endmacro")
     made = []
     for k in range(rng.randint(1, 3)):
@@ -318,6 +360,10 @@ def definer_program(rng, feats):
         vb = rng.choice([["$b2"], ["7", "*", "3"]])
         src.append(f"{dn} {nm}, {brace(val, 1 if len(val) > 1 else rng.randint(0, 1))}" + (f", {brace(vb, 1 if len(vb) > 1 else 0)}" if two else ""))
         made.append((nm, val, vb))
+        if run_inside:
+            flat.append("@db " + " ".join(val) + ", $77" + (", " + " ".join(vb) if two else ""))
+            if extra:
+                flat.append("@db ( " + " ".join(val) + " ) + ( $77 ) & $ff")
         feats["definer_with_params"] = feats.get("definer_with_params", 0) + 1
     for nm, val, vb in made:
         for _ in range(rng.randint(1, 2)):
@@ -358,6 +404,7 @@ def run(tier, seed):
     for _ in range(400 if tier == "quick" else 6000):
         progs.append(forwarding_program(rng, feats))
         progs.append(definer_program(rng, feats))
+        progs.append(tailcall_program(rng, feats))
     corner = [
         ("@macro M, 0\n@db 1\n@endmacro\n@macro M, 0\n@db 2\n@endmacro\n", None),   # defining a macro twice is rejected
         ("@macro Z, 0\n@endmacro\nZ\n@db 9\n", "@db 9\n"),
@@ -410,7 +457,7 @@ def run(tier, seed):
     return chk.finish(
         checker_cmd="cd /verif/lean && lake build Az65.Thm.C10 && #print axioms audit",
         trusted_base=C.TRUSTED + ["the reference substitution expander in checks/c10.py"],
-        rule="case = program of macro definitions (0..4 parameters, statement and expression macros, parameters used 0..3 times, nested invocations to depth 3, macros defined by macros, a constant named like a parameter passed as an argument, brace-grouped arguments containing invocations; groups forwarded through 1..3 invocations with one brace level per hop; macros with parameters defining macros whose name and body use them) and invocations; the implementation on the program is compared with the implementation on the reference token-substitution expansion; distinct = distinct programs")
+        rule="case = program of macro definitions (0..4 parameters, statement and expression macros, parameters used 0..3 times, nested invocations to depth 3, macros defined by macros, a constant named like a parameter passed as an argument, brace-grouped arguments containing invocations; groups forwarded through 1..3 invocations with one brace level per hop; macros with parameters defining macros whose name and body use them, and invoking them through that parameter; macros ending in a bare invocation that takes its arguments from after the outer invocation) and invocations; the implementation on the program is compared with the implementation on the reference token-substitution expansion; distinct = distinct programs")
 
 
 replay = core.replay
